@@ -43,6 +43,7 @@ static int verif_strcmp3(const char *a, const char *b) {
 #pragma weak strarray_push
 #pragma weak struct_in_memory
 #pragma weak struct_reg_class
+#pragma weak struct_ret_in_memory
 #pragma weak struct_type
 #pragma weak ty_bool
 #pragma weak ty_char
